@@ -249,6 +249,7 @@ func main() {
 	}
 	sum := mcx.Explore(r, scs, mcx.Config{Wall: ev.Pick(r, 3*time.Minute, 25*time.Minute)})
 	mcx.Report(r, scs, sum)
+	mcx.RacePass(r, 8, "net/client/limitParallelRequests")
 	r.Set("rule", "scenario = limits x request paths; the environment thread issues every order of {arrive i (index order), cancel i, finish i} events, each applied to a settled system (event level), optionally two events back-to-back (burst, 1 deviation) with preemptions so that cancel races with admission inside acquireEndpoint's select; oracle = in-flight gauges inside the wrapped do at every admission, return values, idle limiter + immediate probe admission at the end, per-path admission order at event level; distinct outcome = distinct (event history, max gauges, results)")
 	r.Sample(map[string]any{"scenario": scs[0].Name, "example_history": "arrive0 arrive1 arrive2 cancel2 finish0 finish1"})
 	r.Assume("the semaphore for the total limit is an instrumented verbatim copy of golang.org/x/sync v0.11.0 semaphore", "requests are symmetric, so arrivals are issued in index order")
